@@ -67,19 +67,19 @@ def cases(tier):
     for n in ((2, 4) if q else (2, 4)):
         c = {"kind": "single", "n": n, "_weight": 9 ** n}
         if n >= 4:
-            c["_split"] = 16
+            c["_split"] = 7
         out.append(c)
     for n in ((2,) if q else (2, 4)):
         c = {"kind": "negate", "n": n, "_weight": 9 ** n * 2}
         if n >= 4:
-            c["_split"] = 16
+            c["_split"] = 8
         out.append(c)
     for n in ((2,) if q else (2, 4)):
         for fac in ([[0.5], [2.0, 0.5]] if q else [[0.5], [2.0], [3.0], [2.0, 0.5]]):
             if n == 4 and fac != [0.5]:
                 continue
             c = {"kind": "multi", "n": n, "factors": fac, "_weight": 9 ** n * 3}
-            c["_split"] = (10 if len(fac) == 1 else 14) if n == 2 else 16
+            c["_split"] = (4 if len(fac) == 1 else 5) if n == 2 else 8
             out.append(c)
     return out
 
@@ -189,9 +189,13 @@ def hcm_oracle(law, reversals_by_pass, tol=1e-12):
     lmax = 0
     e_min_lf, e_max_lf = 0.0, 0.0
     prev_load = 0
-    for run_index, revs in enumerate(reversals_by_pass, start=1):
+    for pass_index, revs in enumerate(reversals_by_pass, start=1):
         prev_load = 0
         for L in revs:
+            # a reversal may be given as (load, pass the hystereses it closes belong to)
+            run_index = pass_index
+            if isinstance(L, tuple):
+                L, run_index = L
             def primary():
                 S = law.s_stress(L)
                 return {"L": L, "S": S, "E": law.s_strain(S, L)}
@@ -298,7 +302,8 @@ def _passes(ctx, xs):
     p, s = xs[n - 2], xs[n - 1]
     deferred = bool(sym_or(sym_and(p < s, s < 0), sym_and(p > s, s > 0)))
     if deferred:
-        return [list(xs[:-1]), [xs[-1]] + list(xs)], True
+        # the deferred reversal is processed at the start of the second pass but still belongs to the first one
+        return [list(xs[:-1]), [(xs[-1], 1)] + list(xs)], True
     return [list(xs), list(xs)], False
 
 
@@ -390,7 +395,7 @@ def run(ctx, case):
         ctx.signature((kind, n, tuple(factors), [(r["closed"], r["run"]) for r in rows]), trivial=not rows)
         out = {}
         for j, f in enumerate(factors):
-            pj = [[f * L for L in p] for p in passes]
+            pj = [[((f * L[0], L[1]) if isinstance(L, tuple) else f * L) for L in p] for p in passes]
             rows_j, _ = hcm_oracle(law, pj)
             cj = coll
             n_rows = len(_colvals(cj, "run_index", j))
